@@ -6,6 +6,11 @@ Bounded run-time contract check on the real writers (odml.save, ODMLWriter.write
 
   run_invalid_docs          documents with >= 1 validation error  -> ParserException, no file created,
                             existing file keeps its bytes
+  run_invalid_locations     the same contract over WHERE the invalid object lives and HOW it got there: copies made
+                            by link / include resolution (edited afterwards), the linking Section, children a link
+                            was merged into, Section.merge copies, clones, objects moved in from another document,
+                            objects read from a file, deep objects, Sections with other markers x every kind of
+                            validation error x finalize() / clean() between the edit and the save
   run_failing_serialisation valid documents whose rendering fails  -> IF the save raises (anything):
                             no file created, existing file keeps its bytes
   run_warnings_only         documents with warnings only           -> written, warnings.warn fires
@@ -239,9 +244,12 @@ def _invalidations(doc):
 
 
 def _really_invalid(doc):
-    """Independent confirmation (private fields) that the constructed document has one of the three defects."""
+    """Independent confirmation (private fields) that the constructed document has one of the three defects
+    (or an object without a name: the other required attribute)."""
     secs, props = h.walk(doc)
     if any(s.type is None or s.type == '' for s in secs):
+        return True
+    if any(o._name is None or o._name == '' for o in secs + props):
         return True
     ids = [doc._id] + [s._id for s in secs] + [p._id for p in props]
     if len(set(ids)) != len(ids):
@@ -1298,3 +1306,825 @@ def run_process_locale(tier, seed):
     if proc.returncode != 0:
         raise RuntimeError('child process failed (%d): %s' % (proc.returncode, proc.stderr.decode('utf-8', 'replace')[-1500:]))
     return json.loads(proc.stdout.decode('utf-8'))
+
+
+# ---------------------------------------------------------------------------------------------
+# run_invalid_locations: WHERE the invalid object lives and HOW it got there
+#
+# run_invalid_docs makes documents invalid whose objects were all built directly, one constructor call per object.
+# The statement quantifies over ALL documents: the object that carries the validation error may as well be a copy
+# made by resolving a link or an include (edited afterwards), the linking Section itself, a child the link was
+# merged into, a clone, an object moved in from another document, an object read from a file, an object deep in
+# the tree, an object whose Section carries other markers (repository, cardinalities, no name) ... and the
+# document may have gone through finalize() / clean() after the edit.  Oracle unchanged (from the statement):
+# the document has a validation error (confirmed through the private fields by _really_invalid) -> the save
+# raises ParserException for every output format, no file is created, a present file keeps its bytes.
+# ---------------------------------------------------------------------------------------------
+
+LOC_TERM_URL = 'http://c07.invalid/terminology.xml'
+
+
+def _loc_subtree(parent, name='template', type_='setup'):
+    """name(tp) / settings(gain, offset) / inner(depth) / core(leaf)"""
+    top = odml.Section(name=name, type=type_, parent=parent)
+    odml.Property(name='tp', values=[1], parent=top)
+    settings = odml.Section(name='settings', type='settings', parent=top)
+    odml.Property(name='gain', values=[1], parent=settings)
+    odml.Property(name='offset', values=[0.5], parent=settings)
+    inner = odml.Section(name='inner', type='inner', parent=settings)
+    odml.Property(name='depth', values=['x'], parent=inner)
+    core = odml.Section(name='core', type='core', parent=inner)
+    odml.Property(name='leaf', values=['y'], parent=core)
+    return top
+
+
+def _loc_install_terminology():
+    """The document the include attributes point to goes into the library's terminology cache up front: no
+    network access, no loader thread (terminology.load / deferred_load return cached entries)."""
+    from odml import terminology
+    term = odml.Document(author='terminology', version='1')
+    _loc_subtree(term)
+    terminology.terminologies[LOC_TERM_URL] = term
+    terminology.terminologies.loading.pop(LOC_TERM_URL, None)
+
+
+def _at(node, *names):
+    """The Section below `node` reached through the given names (private fields only)."""
+    for name in names:
+        for c in list.__iter__(node._sections):
+            if c._name == name:
+                node = c
+                break
+        else:
+            raise AssertionError('harness bug: no Section %r below %r' % (name, node))
+    return node
+
+
+def _loc_base():
+    doc = odml.Document(author='me', version='1')
+    sec = odml.Section(name='wsec', type='t', parent=doc)
+    odml.Property(name='wprop', values=['x'], parent=sec)
+    return doc
+
+
+def _loc_linked(how='setter', attr='link', own_child=False, own_prop=False, target=None, under=None):
+    """A document with Section 'template' (see _loc_subtree) and a Section 'session' that links to / includes it.
+    how: 'setter' (resolved at once), 'ctor' (given to the constructor: unresolved), 'ctor+finalize'."""
+    doc = _loc_base()
+    _loc_subtree(doc)
+    if target is None:
+        target = '/template' if attr == 'link' else LOC_TERM_URL + '#/template'
+    par = doc if under is None else odml.Section(name=under, type='grp', parent=doc)
+    if how == 'setter':
+        ses = odml.Section(name='session', type='setup', parent=par)
+    else:
+        ses = odml.Section(name='session', type='setup', parent=par, **{attr: target})
+    if own_prop:
+        odml.Property(name='own', values=[3], parent=ses)
+    if own_child:
+        mine = odml.Section(name='settings', type='settings', parent=ses)
+        odml.Property(name='mine', values=[2], parent=mine)
+    if how == 'setter':
+        setattr(ses, attr, target)
+    elif how == 'ctor+finalize':
+        doc.finalize()
+    return doc, ses
+
+
+def _loc_reload(doc, backend):
+    """Save a (valid) document into the scratch directory and read it back: every object comes from a reader."""
+    path = os.path.join(WORK, 'loc-source.' + backend.lower())
+    ODMLWriter(backend).write_file(doc, path)
+    try:
+        return odml.load(path, backend, show_warnings=False)
+    finally:
+        os.remove(path)
+
+
+def _loc_scenarios():
+    """(provenance label, builder -> (document to save, Section S at that place)).  S always owns >= 1 Property."""
+    out = []
+
+    def add(label, fn):
+        out.append((label, fn))
+
+    # --- built directly (control) and deep in the tree -----------------------------------------------------
+    def direct():
+        doc = _loc_base()
+        return doc, _at(_loc_subtree(doc), 'settings')
+    add('built-directly', direct)
+
+    def deep():
+        doc = _loc_base()
+        node = doc
+        for k in range(6):
+            node = odml.Section(name='level%d' % k, type='level', parent=node)
+        return doc, _at(_loc_subtree(node), 'settings', 'inner', 'core')
+    add('built-directly/depth-10', deep)
+
+    # --- copies made by link resolution --------------------------------------------------------------------
+    for how in ('setter', 'ctor+finalize'):
+        for names, where in ((('settings',), 'the-copy'), (('settings', 'inner'), 'child-of-the-copy'),
+                             (('settings', 'inner', 'core'), 'grandchild-of-the-copy')):
+            def link_copy(how=how, names=names):
+                doc, ses = _loc_linked(how)
+                return doc, _at(ses, *names)
+            add('link-copy(%s)/%s' % (how, where), link_copy)
+
+    def link_copy_relative():
+        doc, ses = _loc_linked('setter', target='../../template', under='group')
+        return doc, _at(ses, 'settings')
+    add('link-copy(relative-path)/the-copy', link_copy_relative)
+
+    def linker_resolved():
+        doc, ses = _loc_linked('setter')
+        return doc, ses
+    add('linking-section/resolved', linker_resolved)
+
+    def linker_resolved_own():
+        doc, ses = _loc_linked('setter', own_prop=True, own_child=True)
+        return doc, ses
+    add('linking-section/resolved-with-own-children', linker_resolved_own)
+
+    def linker_unresolved():
+        doc, ses = _loc_linked('ctor', own_prop=True)
+        return doc, ses
+    add('linking-section/unresolved', linker_unresolved)
+
+    def link_target():
+        doc, _ses = _loc_linked('setter')
+        return doc, _at(doc, 'template')
+    add('link-target', link_target)
+
+    def link_target_child():
+        doc, _ses = _loc_linked('setter')
+        return doc, _at(doc, 'template', 'settings')
+    add('link-target/child', link_target_child)
+
+    def link_target_child_unresolved():
+        doc, _ses = _loc_linked('ctor', own_prop=True)
+        return doc, _at(doc, 'template', 'settings')
+    add('link-target/child-while-unresolved', link_target_child_unresolved)
+
+    def link_merged_own_child():
+        doc, ses = _loc_linked('setter', own_child=True)
+        return doc, _at(ses, 'settings')
+    add('link-merged-into-own-child', link_merged_own_child)
+
+    def link_merged_own_child_copy_below():
+        doc, ses = _loc_linked('setter', own_child=True)
+        return doc, _at(ses, 'settings', 'inner')
+    add('link-merged-into-own-child/copy-below', link_merged_own_child_copy_below)
+
+    def link_of_link():
+        doc, _ses = _loc_linked('setter')
+        second = odml.Section(name='second', type='setup', parent=doc)
+        second.link = '/session'
+        return doc, _at(second, 'settings')
+    add('link-copy-of-a-link-copy', link_of_link)
+
+    def sibling_of_link_copy():
+        doc, ses = _loc_linked('setter')
+        sib = odml.Section(name='beside', type='beside', parent=ses)
+        odml.Property(name='bp', values=[1], parent=sib)
+        return doc, sib
+    add('own-section-beside-link-copies', sibling_of_link_copy)
+
+    def below_link_copy():
+        doc, ses = _loc_linked('setter')
+        new = odml.Section(name='added', type='added', parent=_at(ses, 'settings'))
+        odml.Property(name='ap', values=[1], parent=new)
+        return doc, new
+    add('own-section-added-below-a-link-copy', below_link_copy)
+
+    # --- copies made by include resolution -----------------------------------------------------------------
+    for how in ('setter', 'ctor+finalize'):
+        for names, where in ((('settings',), 'the-copy'), (('settings', 'inner'), 'child-of-the-copy')):
+            def include_copy(how=how, names=names):
+                doc, ses = _loc_linked(how, attr='include')
+                return doc, _at(ses, *names)
+            add('include-copy(%s)/%s' % (how, where), include_copy)
+
+    def includer_resolved():
+        doc, ses = _loc_linked('setter', attr='include')
+        return doc, ses
+    add('including-section/resolved', includer_resolved)
+
+    def includer_unresolved():
+        doc, ses = _loc_linked('ctor', attr='include', own_prop=True)
+        return doc, ses
+    add('including-section/unresolved', includer_unresolved)
+
+    def include_merged_own_child():
+        doc, ses = _loc_linked('setter', attr='include', own_child=True)
+        return doc, _at(ses, 'settings')
+    add('include-merged-into-own-child', include_merged_own_child)
+
+    # --- Section.merge called directly ----------------------------------------------------------------------
+    for strict in (True, False):
+        def merged(strict=strict):
+            doc = _loc_base()
+            src = _loc_subtree(doc)
+            dest = odml.Section(name='dest', type='setup', parent=doc)
+            dest.merge(src, strict=strict)
+            return doc, _at(dest, 'settings')
+        add('merge-copy(strict=%s)' % strict, merged)
+
+    def merged_from_other_doc():
+        doc = _loc_base()
+        src = _loc_subtree(_loc_base())
+        dest = odml.Section(name='dest', type='setup', parent=doc)
+        dest.merge(src)
+        return doc, _at(dest, 'settings', 'inner')
+    add('merge-copy-from-another-document/child', merged_from_other_doc)
+
+    # --- clones --------------------------------------------------------------------------------------------
+    def clone_root():
+        doc = _loc_base()
+        c = _at(_loc_subtree(doc), 'settings').clone()
+        c.name = 'settings_clone'
+        _at(doc, 'template').append(c)
+        return doc, c
+    add('clone/root', clone_root)
+
+    def clone_child():
+        doc = _loc_base()
+        c = _loc_subtree(doc).clone()
+        c.name = 'template_clone'
+        doc.append(c)
+        return doc, _at(c, 'settings')
+    add('clone/child', clone_child)
+
+    def clone_no_children():
+        doc = _loc_base()
+        c = _at(_loc_subtree(doc), 'settings').clone(children=False)
+        c.name = 'bare_clone'
+        doc.append(c)
+        odml.Property(name='later', values=[1], parent=c)
+        return doc, c
+    add('clone(children=False)', clone_no_children)
+
+    def clone_of_link_copy():
+        doc, ses = _loc_linked('setter')
+        c = _at(ses, 'settings').clone()
+        c.name = 'copy_clone'
+        doc.append(c)
+        return doc, c
+    add('clone-of-a-link-copy', clone_of_link_copy)
+
+    def clone_of_linker():
+        doc, ses = _loc_linked('setter')
+        c = ses.clone()
+        c.name = 'session_clone'
+        doc.append(c)
+        return doc, c
+    add('clone-of-a-linking-section/root', clone_of_linker)
+
+    def clone_of_linker_child():
+        doc, ses = _loc_linked('setter')
+        c = ses.clone()
+        c.name = 'session_clone'
+        doc.append(c)
+        return doc, _at(c, 'settings')
+    add('clone-of-a-linking-section/child', clone_of_linker_child)
+
+    def clone_of_linker_other_doc():
+        _doc, ses = _loc_linked('setter')
+        doc = _loc_base()
+        c = ses.clone()
+        doc.append(c)
+        return doc, _at(c, 'settings')
+    add('clone-of-a-linking-section-in-another-document/child', clone_of_linker_other_doc)
+
+    def document_clone():
+        doc = _loc_base()
+        _loc_subtree(doc)
+        twin = doc.clone()
+        return twin, _at(twin, 'template', 'settings')
+    add('document-clone', document_clone)
+
+    def document_clone_linked():
+        doc, _ses = _loc_linked('setter')
+        twin = doc.clone()
+        return twin, _at(twin, 'session', 'settings')
+    add('document-clone/link-copy', document_clone_linked)
+
+    # --- moved in ------------------------------------------------------------------------------------------
+    def moved(how):
+        def build():
+            src = _loc_subtree(_loc_base())
+            doc = _loc_base()
+            dest = _at(doc, 'wsec')
+            if how == 'append':
+                dest.append(src)
+            elif how == 'document.append':
+                doc.append(src)
+            elif how == 'insert':
+                dest.insert(0, src)
+            elif how == 'document.insert':
+                doc.insert(0, src)
+            elif how == 'extend':
+                dest.extend([src])
+            elif how == 'parent-setter':
+                src.parent = dest
+            else:
+                raise AssertionError(how)
+            return doc, _at(src, 'settings')
+        return build
+    for how in ('append', 'document.append', 'insert', 'document.insert', 'extend', 'parent-setter'):
+        add('moved-from-another-document(%s)' % how, moved(how))
+
+    def moved_link_copy():
+        _other, ses = _loc_linked('setter')
+        doc = _loc_base()
+        c = _at(ses, 'settings')
+        _at(doc, 'wsec').append(c)
+        return doc, c
+    add('link-copy-moved-from-another-document', moved_link_copy)
+
+    def moved_linker():
+        other, ses = _loc_linked('setter')
+        doc = _loc_base()
+        doc.append(ses)
+        return doc, _at(ses, 'settings')
+    add('resolved-linking-section-moved-from-another-document/child', moved_linker)
+
+    def moved_within():
+        doc = _loc_base()
+        s = _at(_loc_subtree(doc), 'settings')
+        _at(doc, 'wsec').append(s)
+        return doc, s
+    add('moved-within-the-document', moved_within)
+
+    def created():
+        doc = _loc_base()
+        s = _at(doc, 'wsec').create_section('made', 'made')
+        s.create_property('cp', 1)
+        return doc, s
+    add('create_section/create_property', created)
+
+    def prop_moved():
+        other = _at(_loc_subtree(_loc_base()), 'settings')
+        doc = _loc_base()
+        s = _at(_loc_subtree(doc), 'settings', 'inner')
+        s.insert(0, list.__getitem__(other._props, 0))
+        return doc, s
+    add('property-moved-from-another-document', prop_moved)
+
+    def prop_clone():
+        doc = _loc_base()
+        s = _at(_loc_subtree(doc), 'settings', 'inner')
+        s.insert(0, list.__getitem__(_at(doc, 'template', 'settings')._props, 0).clone())
+        return doc, s
+    add('property-clone', prop_clone)
+
+    # --- read from a file ----------------------------------------------------------------------------------
+    for backend in ('XML', 'JSON', 'YAML'):
+        def loaded(backend=backend):
+            doc = _loc_base()
+            _loc_subtree(doc)
+            doc = _loc_reload(doc, backend)
+            return doc, _at(doc, 'template', 'settings')
+        add('loaded-from-%s' % backend, loaded)
+
+        def loaded_link(backend=backend):
+            doc, _ses = _loc_linked('ctor', own_prop=True)
+            doc = _loc_reload(doc, backend)
+            doc.finalize()
+            return doc, _at(doc, 'session', 'settings')
+        add('loaded-from-%s/link-copy-after-finalize' % backend, loaded_link)
+
+        def loaded_linker(backend=backend):
+            doc, _ses = _loc_linked('ctor', own_prop=True)
+            doc = _loc_reload(doc, backend)
+            return doc, _at(doc, 'session')
+        add('loaded-from-%s/unresolved-linking-section' % backend, loaded_linker)
+
+    # --- the Section carries other markers -----------------------------------------------------------------
+    def with_repository():
+        doc = _loc_base()
+        s = _at(_loc_subtree(doc), 'settings')
+        s.repository = LOC_TERM_URL
+        return doc, s
+    add('section-with-repository', with_repository)
+
+    def below_repository():
+        doc = _loc_base()
+        top = _loc_subtree(doc)
+        top.repository = LOC_TERM_URL
+        return doc, _at(top, 'settings')
+    add('below-section-with-repository', below_repository)
+
+    def unnamed():
+        doc = _loc_base()
+        s = odml.Section(type='settings', parent=_loc_subtree(doc))
+        odml.Property(values=[1], parent=s)
+        return doc, s
+    add('unnamed-section-and-property', unnamed)
+
+    def with_cardinalities():
+        doc = _loc_base()
+        s = _at(_loc_subtree(doc), 'settings')
+        s.sec_cardinality = (0, 3)
+        s.prop_cardinality = (1, 5)
+        list.__getitem__(s._props, 0).val_cardinality = (1, 2)
+        return doc, s
+    add('section-with-cardinalities', with_cardinalities)
+
+    def with_unmet_cardinalities():
+        doc = _loc_base()
+        s = _at(_loc_subtree(doc), 'settings')
+        s.sec_cardinality = (3, None)
+        s.prop_cardinality = (5, None)
+        list.__getitem__(s._props, 0).val_cardinality = (4, None)
+        return doc, s
+    add('section-with-warnings(cardinalities)', with_unmet_cardinalities)
+
+    def default_type_around():
+        doc = _loc_base()
+        top = _loc_subtree(doc)
+        top.type = 'n.s.'
+        odml.Section(name='untyped_sibling', parent=top)
+        return doc, _at(top, 'settings')
+    add('between-sections-with-warnings(type n.s.)', default_type_around)
+    return out
+
+
+def _loc_kinds():
+    """(kind of validation error, apply(doc, S)): the error is put on S, on S's first Property or among S's
+    siblings.  Constructors and public setters where they allow the state, the private name field otherwise."""
+    def first_prop(s):
+        return list.__getitem__(s._props, 0)
+
+    def type_none(doc, s):
+        s.type = None
+
+    def type_empty(doc, s):
+        s.type = ''
+
+    def sec_name_missing(doc, s):
+        s._name = ''
+
+    def prop_name_missing(doc, s):
+        first_prop(s)._name = ''
+
+    def dup_sec_name(doc, s):
+        par = s._parent
+        n = odml.Section(name=_unique_name(par._sections, 'zz_tmp'), type=s.type, parent=par)
+        n._name = s._name
+
+    def dup_prop_name(doc, s):
+        n = odml.Property(name=_unique_name(s._props, 'zz_tmp'), values=[1], parent=s)
+        n._name = first_prop(s)._name
+
+    def dup_sec_id(doc, s):
+        odml.Section(name=_unique_name(doc._sections, 'zz_same_id'), type='t', oid=s._id, parent=doc)
+
+    def dup_prop_id(doc, s):
+        odml.Property(name=_unique_name(s._props, 'zz_same_id'), values=[1], oid=first_prop(s)._id, parent=s)
+
+    def dup_prop_id_elsewhere(doc, s):
+        holder = odml.Section(name=_unique_name(doc._sections, 'zz_holder'), type='t', parent=doc)
+        odml.Property(name='same_id', values=[1], oid=first_prop(s)._id, parent=holder)
+
+    return [('section-type-None', type_none), ('section-type-empty', type_empty),
+            ('section-name-empty', sec_name_missing), ('property-name-empty', prop_name_missing),
+            ('duplicate-sibling-section-name', dup_sec_name), ('duplicate-sibling-property-name', dup_prop_name),
+            ('duplicate-id-section', dup_sec_id), ('duplicate-id-property-same-section', dup_prop_id),
+            ('duplicate-id-property-other-section', dup_prop_id_elsewhere)]
+
+
+LOC_STAGES = ['as-built', 'finalize()', 'clean()', 'clean()+finalize()', 'finalize()+clean()']
+
+
+def _loc_stage(doc, stage):
+    """What happens to the document between the edit and the save. The operations may refuse (raise): the
+    document is then saved as it is - the oracle only depends on the state it is in."""
+    if stage == 'as-built':
+        return
+    for op in stage.split('+'):
+        h.call(getattr(doc, op[:-2]))
+
+
+def _reachable(doc, sec):
+    return any(s is sec for s in h.walk(doc)[0])
+
+
+def _loc_check(col, doc, prov, kind, stage, cfgs, combos, witness0):
+    """Save the (invalid) document with every given format x (entry, target); apply the C07 oracle."""
+    for label, backend, kwargs, ext in cfgs:
+        for entry, target in combos:
+            path, before = _prepare(target, ext)
+            col.case(cls_key=(prov, kind, stage, label, entry, target),
+                     sample='%s on %s, then %s -> %s via %s, target %s' % (kind, prov, stage, label, entry, target))
+            kind_, val, _rec = _save(entry, doc, path, backend, kwargs)
+            after = _listing()
+            witness = dict(witness0, format=label, kwargs=kwargs, entry=entry, target=target)
+            feature = '%s@%s/%s' % (kind, prov, stage)
+            if kind_ == 'ret':
+                col.fail(check='C07.invalid_locations/raises', cls={'clause': 'raises', 'feature': feature},
+                         witness=witness,
+                         detail='save returned normally for a document with a validation error (%s on an object '
+                                'that is: %s; after the edit: %s); contract requires ParserException'
+                                % (kind, prov, stage))
+            elif not isinstance(val, ParserException):
+                col.fail(check='C07.invalid_locations/raises-ParserException',
+                         cls={'clause': 'raises-ParserException',
+                              'feature': '%s/%s/%s' % (feature, backend, type(val).__name__)},
+                         witness=witness,
+                         detail='save raised %s: %s; contract requires ParserException for a document with a '
+                                'validation error' % (type(val).__name__, str(val)[:200]))
+            for clause, msg in _fs_violations(before, after):
+                col.fail(check='C07.invalid_locations/' + clause, cls={'clause': clause, 'feature': feature},
+                         witness=witness, detail=msg + '; contract: a refused save touches no file')
+
+
+def _sec_path(sec):
+    names = []
+    while isinstance(sec, h.BaseSection):
+        names.append(sec._name)
+        sec = sec._parent
+    return '/' + '/'.join(reversed(names))
+
+
+def run_invalid_locations(tier, seed):
+    col = h.Collector(
+        'C07.invalid_locations',
+        rule='place / history of the object that carries the validation error {built directly, depth 10; copy made by '
+             'resolving a link (setter, constructor + finalize, relative path): the copy, its child, its grandchild; '
+             'the linking Section resolved / unresolved / with own children; the link target and its child; an own child '
+             'the link was merged into; copy of a copy; own Sections beside / below copies; the same for include '
+             '(terminology pre-loaded); Section.merge copies; clones (root, child, children=False, of a link copy, of a '
+             'linking Section, Document.clone); moved in from another document by append / insert / extend / parent '
+             'setter; moved within; create_section; Property moved in / cloned; read from XML / JSON / YAML (plain, '
+             'unresolved link, link resolved after loading); Section with repository / cardinalities / warnings / no '
+             'name} x kind of error {type None, type "", empty Section / Property name, duplicate sibling Section '
+             '(name, type), duplicate sibling Property name, duplicate id of the Section / of its Property in the same / '
+             'another Section} x what follows the edit {nothing, finalize(), clean(), clean()+finalize(), '
+             'finalize()+clean()} (quick: the first three) x formats (quick: two of XML, JSON, YAML, RDF, RDF/turtle, rotating) x '
+             '{odml.save, ODMLWriter.write_file} x target {absent, b"OLD"} (quick: one rotating pair); then generated documents x every '
+             'Section as link target x every Section below the new linking Section x every kind, rotating format; '
+             'cases whose document is not invalid any more after the follow-up step are not evaluated; '
+             'class = (place, kind, follow-up, format, entry, target)',
+        exhaustive=False)
+    basic = [c for c in CONFIGS if c[0] in ('XML', 'JSON', 'YAML', 'RDF', 'RDF/turtle')]
+    cfgs = basic if tier == 'quick' else CONFIGS
+    all_combos = [(e, t) for e in ENTRIES for t in TARGETS]
+    stages = LOC_STAGES[:3] if tier == 'quick' else LOC_STAGES
+    _reset_dir()
+    try:
+        with h.quiet():
+            _loc_install_terminology()
+            n = 0
+            for prov, build in _loc_scenarios():
+                for kind, apply in _loc_kinds():
+                    for stage in stages:
+                        doc, sec = build()
+                        if not _reachable(doc, sec) or not list.__len__(sec._props):
+                            raise AssertionError('harness bug: scenario %s' % prov)
+                        if _really_invalid(doc):
+                            raise AssertionError('harness bug: scenario %s is invalid before the edit' % prov)
+                        apply(doc, sec)
+                        if not _really_invalid(doc):
+                            raise AssertionError('harness bug: %s on %s did not invalidate' % (kind, prov))
+                        _loc_stage(doc, stage)
+                        if not _really_invalid(doc):
+                            continue                        # the follow-up step removed the defect: nothing to claim
+                        n += 1
+                        combos = all_combos if tier != 'quick' else [all_combos[n % 4]]
+                        use = cfgs if tier != 'quick' else [cfgs[n % len(cfgs)], cfgs[(n + 2) % len(cfgs)]]
+                        _loc_check(col, doc, prov, kind, stage, use, combos,
+                                   {'place': prov, 'kind': kind, 'after_edit': stage})
+            # generated documents: every Section as link target, every Section below the new linking Section
+            rnd = random.Random('c07-loc-%s' % seed)
+            kinds = _loc_kinds()
+            for key, build in _base_docs(tier, seed):
+                n_secs = len(h.walk(build())[0])
+                for ti in range(n_secs):
+                    probe = build()
+                    tgt = h.walk(probe)[0][ti]
+                    linker = odml.Section(name=_unique_name(probe._sections, 'zz_linker'), type=tgt.type, parent=probe)
+                    if h.call(setattr, linker, 'link', _sec_path(tgt))[0] == 'exc':
+                        continue
+                    below = [linker] + h.walk(linker)[0]
+                    for si in range(len(below)):
+                        for kind, apply in kinds:
+                            doc = build()
+                            tgt = h.walk(doc)[0][ti]
+                            linker = odml.Section(name=_unique_name(doc._sections, 'zz_linker'), type=tgt.type,
+                                                  parent=doc)
+                            linker.link = _sec_path(tgt)
+                            sec = ([linker] + h.walk(linker)[0])[si]
+                            if 'property' in kind and not list.__len__(sec._props):
+                                continue
+                            if _really_invalid(doc):
+                                continue
+                            apply(doc, sec)
+                            stage = rnd.choice(LOC_STAGES)
+                            _loc_stage(doc, stage)
+                            if not _really_invalid(doc):
+                                continue
+                            prov = 'generated:' + ('linking-section' if sec is linker else
+                                                   'link-copy' if sec._parent is linker else 'below-link-copy')
+                            _loc_check(col, doc, prov, kind, stage, [rnd.choice(CONFIGS)], [rnd.choice(all_combos)],
+                                       {'place': prov, 'kind': kind, 'after_edit': stage, 'base_doc': key,
+                                        'seed': seed, 'link_target_index': ti, 'section_below_linker_index': si})
+    finally:
+        _cleanup()
+    return col.result()
+
+
+# ---------------------------------------------------------------------------------------------
+# run_warning_locations: the third clause over the same places
+#
+# "a document with warnings only is written and the warnings are reported" - the object the warning is about may
+# live at any of the places of run_invalid_locations.  The warning is put on S / S's first Property after S got
+# there; that the document then has a reason for a warning and no validation error is confirmed independently
+# through the private fields.
+# ---------------------------------------------------------------------------------------------
+
+def _loc_warning_kinds():
+    """(reason for a warning, apply(doc, S), twin(doc, S)): `twin` is the same edit with a value that gives no
+    reason for a warning - the control that tells whether a format can hold the edited document at all (renaming
+    the target of a link, for example, leaves a link that cannot be resolved, whatever the new name is)."""
+    def first_prop(s):
+        return list.__getitem__(s._props, 0)
+
+    def set_type(value):
+        def edit(doc, s):
+            s.type = value
+        return edit
+
+    def set_val_card(value):
+        def edit(doc, s):
+            first_prop(s).val_cardinality = value
+        return edit
+
+    def set_prop_card(value):
+        def edit(doc, s):
+            s.prop_cardinality = value
+        return edit
+
+    def set_sec_card(value):
+        def edit(doc, s):
+            s.sec_cardinality = value
+        return edit
+
+    def sec_name_is_id(doc, s):
+        s.name = s.id
+
+    def sec_renamed(doc, s):
+        s.name = _unique_name(s._parent._sections, 'renamed')
+
+    def prop_name_is_id(doc, s):
+        first_prop(s).name = first_prop(s).id
+
+    def prop_renamed(doc, s):
+        first_prop(s).name = _unique_name(s._props, 'renamed')
+
+    def dependency(on_existing):
+        def edit(doc, s):
+            odml.Property(name=_unique_name(s._props, 'zz_other'), values=['v'], parent=s)
+            first_prop(s).dependency = list.__getitem__(s._props, list.__len__(s._props) - 1)._name \
+                if on_existing else 'nowhere'
+            first_prop(s).dependency_value = 'v'
+        return edit
+
+    def text_value(text):
+        def edit(doc, s):
+            odml.Property(name=_unique_name(s._props, 'zz_number_text'), values=[text], dtype='string', parent=s)
+        return edit
+
+    return [('section-type-n.s.', set_type('n.s.'), set_type('typed')),
+            ('values-cardinality-min-unmet', set_val_card((5, None)), set_val_card((None, 9))),
+            ('properties-cardinality-min-unmet', set_prop_card((7, None)), set_prop_card((None, 9))),
+            ('sections-cardinality-min-unmet', set_sec_card((4, None)), set_sec_card((None, 9))),
+            ('section-name-is-id', sec_name_is_id, sec_renamed),
+            ('property-name-is-id', prop_name_is_id, prop_renamed),
+            ('dependency-not-found', dependency(False), dependency(True)),
+            ('string-value-fits-int', text_value('12'), text_value('a dozen'))]
+
+
+def _loc_warning_reasons(doc):
+    """Independent (private fields): the reasons for a warning that _loc_warning_kinds creates, found in `doc`."""
+    secs, props = h.walk(doc)
+    out = set()
+    for s in secs:
+        if s.type == 'n.s.':
+            out.add('section-type-n.s.')
+        if s._name == s._id:
+            out.add('section-name-is-id')
+        card = s._prop_cardinality
+        if card and card[0] is not None and list.__len__(s._props) < card[0]:
+            out.add('properties-cardinality-min-unmet')
+        card = s._sec_cardinality
+        if card and card[0] is not None and list.__len__(s._sections) < card[0]:
+            out.add('sections-cardinality-min-unmet')
+        names = [p._name for p in list.__iter__(s._props)]
+        for p in list.__iter__(s._props):
+            if p._dependency is not None and p._dependency not in names:
+                out.add('dependency-not-found')
+    for p in props:
+        if p._name == p._id:
+            out.add('property-name-is-id')
+        card = p._val_cardinality
+        if card and card[0] is not None and len(p._values) < card[0]:
+            out.add('values-cardinality-min-unmet')
+        if p._dtype == 'string' and p._values and all(isinstance(v, str) and v.isdigit() for v in p._values):
+            out.add('string-value-fits-int')
+    return out
+
+
+WARN_STAGES = LOC_STAGES[:3]
+
+
+def run_warning_locations(tier, seed):
+    col = h.Collector(
+        'C07.warning_locations',
+        rule='the places of C07.invalid_locations x reason for a warning put on the object there {type "n.s.", values / '
+             'properties / sections cardinality minimum unmet, Section / Property name equal to the id, dependency '
+             'that does not exist, text value that looks like an int} x what follows the edit {nothing, finalize(), '
+             'clean()} x formats x {odml.save, ODMLWriter.write_file} x target {absent, b"OLD"} (quick: one rotating '
+             'follow-up, one of XML / JSON / YAML / RDF and one pair per document; thorough: XML, JSON, YAML, RDF and '
+             'three rotating ones of XML+local_style and the 11 rdf_format values, one rotating pair each); evaluated when the '
+             'document still has the reason and no validation error; a save that raises must not touch any file and '
+             'counts against "is written" only if the same document with the same edit but a value that gives no '
+             'reason for a warning can be saved in that format; class = (place, reason, follow-up, format, '
+             'entry, target)',
+        exhaustive=False)
+    all_combos = [(e, t) for e in ENTRIES for t in TARGETS]
+    main_cfgs = [c for c in CONFIGS if c[0] in ('XML', 'JSON', 'YAML', 'RDF')]
+    other_cfgs = [c for c in CONFIGS if c not in main_cfgs]
+    _reset_dir()
+    try:
+        with h.quiet():
+            _loc_install_terminology()
+            n = 0
+            for prov, build in _loc_scenarios():
+                for wkind, apply, twin in _loc_warning_kinds():
+                    n += 1
+                    stages = [WARN_STAGES[n % 3]] if tier == 'quick' else WARN_STAGES
+                    for stage in stages:
+                        doc, sec = build()
+                        if h.call(apply, doc, sec)[0] == 'exc':
+                            continue                        # the model refused the edit at this place
+                        _loc_stage(doc, stage)
+                        if wkind not in _loc_warning_reasons(doc) or _really_invalid(doc):
+                            continue
+                        n += 1
+                        if tier == 'quick':
+                            cfgs = [main_cfgs[n % len(main_cfgs)]]
+                        else:
+                            cfgs = main_cfgs + [other_cfgs[(n + i) % len(other_cfgs)] for i in (0, 4, 8)]
+                        for k, (label, backend, kwargs, ext) in enumerate(cfgs):
+                            entry, target = all_combos[(n + k) % 4]
+                            path, before = _prepare(target, ext)
+                            col.case(cls_key=(prov, wkind, stage, label, entry, target),
+                                     sample='%s on %s, then %s -> %s via %s, target %s'
+                                            % (wkind, prov, stage, label, entry, target))
+                            kind, val, rec = _save(entry, doc, path, backend, kwargs)
+                            witness = {'place': prov, 'warning': wkind, 'after_edit': stage, 'format': label,
+                                       'kwargs': kwargs, 'entry': entry, 'target': target}
+                            feature = '%s@%s/%s' % (wkind, prov, stage)
+                            if kind == 'exc':
+                                for clause, msg in _fs_violations(before, _listing()):
+                                    col.fail(check='C07.warning_locations/' + clause,
+                                             cls={'clause': clause, 'feature': '%s/%s/raised-%s'
+                                                                               % (feature, backend, type(val).__name__)},
+                                             witness=witness,
+                                             detail='save raised %s (%s); %s; contract: whenever a save raises no '
+                                                    'file is created and an existing file keeps its content'
+                                                    % (type(val).__name__, str(val)[:120], msg))
+                                ctrl, csec = build()
+                                twin(ctrl, csec)
+                                _loc_stage(ctrl, stage)
+                                cpath, _b = _prepare('absent', ext)
+                                if _save(entry, ctrl, cpath, backend, kwargs)[0] == 'exc':
+                                    continue                # this format cannot hold the document without the warning either
+                                col.fail(check='C07.warning_locations/written',
+                                         cls={'clause': 'written',
+                                              'feature': '%s/%s/raised-%s' % (feature, backend, type(val).__name__)},
+                                         witness=witness,
+                                         detail='save raised %s: %s; contract: a document with warnings only is written'
+                                                % (type(val).__name__, str(val)[:200]))
+                                continue
+                            data = None
+                            if os.path.isfile(path):
+                                with open(path, 'rb') as fh:
+                                    data = fh.read()
+                            if data is None or data == OLD or MARK not in data:
+                                col.fail(check='C07.warning_locations/written',
+                                         cls={'clause': 'written', 'feature': '%s/%s/no-content' % (feature, backend)},
+                                         witness=witness,
+                                         detail='after a successful save the target holds %r; contract: the document '
+                                                '(section "wsec") is written' % (None if data is None else data[:60]))
+                            if not rec:
+                                col.fail(check='C07.warning_locations/warning-reported',
+                                         cls={'clause': 'warning-reported', 'feature': feature},
+                                         witness=witness,
+                                         detail='save issued no warning (warnings.warn not called) although the '
+                                                'document has a reason for one (%s on an object that is: %s); contract: '
+                                                'the warnings are reported' % (wkind, prov))
+    finally:
+        _cleanup()
+    return col.result()
